@@ -26,6 +26,7 @@ type vSpec struct {
 	NoEmptyList    bool
 	NoEmptyMap     bool
 	StrMin         int
+	MapWidth       int // width of maps if > 0 (lists keep Width)
 }
 
 type vRef struct {
